@@ -147,7 +147,23 @@ def annealed_runs(rng, out, terms, meta, nruns, thorough):
             niter = rng.choice([6, 12, 20] if not thorough else [12, 30, 60])
             ladder0 = [[float(b) for b in ch.betas] for ch in s.chains]
             problem = None
+            load_at = rng.randrange(2, niter) if rng.random() < 0.5 else None
+            load_how = rng.choice(['same', 'fresh'])
+            cfg['state_load'] = (load_at, load_how) if load_at else None
             for it in range(niter):
+                if load_at is not None and it == load_at:
+                    # checkpoint / resume in the middle of the run: into the same sampler object or into a freshly built one
+                    import pickle
+                    st = pickle.loads(pickle.dumps(s.state))
+                    if load_how == 'fresh':
+                        ann2 = DynamicalAnnealer(tau=tau, nu=nu, Tmax_prior=tmax) if annealer else None
+                        s2 = ParallelTemperedSampler(['x', 'y'], model, nch, betas=numpy.array(order), swap_interval=si,
+                                                     adaptive_annealer=ann2, seed=cfg['seed'] + 1)
+                        s2.set_state(st)
+                        s = s2
+                    else:
+                        s.set_state(st)
+                    out.count('state_loads_' + load_how)
                 try:
                     s.run(1)
                 except Exception as e:       # noqa
